@@ -5,6 +5,7 @@ pub mod c03;
 pub mod c06;
 pub mod c12;
 pub mod c13;
+pub mod c16;
 pub mod c17;
 pub mod c18;
 pub mod c19;
@@ -17,6 +18,7 @@ pub fn run(prop: &str, ctx: &mut Ctx) -> bool {
         "C06" => c06::run(ctx),
         "C12" => c12::run(ctx),
         "C13" => c13::run(ctx),
+        "C16" => c16::run(ctx),
         "C17" => c17::run(ctx),
         "C18" => c18::run(ctx),
         "C19" => c19::run(ctx),
